@@ -97,6 +97,7 @@ pub struct RunResult {
 type DbIter = Box<dyn RainDbIterator<Key = Vec<u8>, Error = RainDBError>>;
 
 pub struct Session {
+    pub opens: Vec<(usize, OptSet)>,
     pub fs: SimFs,
     pub sink: Arc<TraceSink>,
     pub u: Arc<Universe>,
@@ -142,6 +143,7 @@ impl Session {
 
     pub fn open(&mut self, opts: &OptSet) -> Result<(), String> {
         self.opts = opts.clone();
+        self.opens.push((self.fs.journal_len(), opts.clone()));
         self.emit("Open", json!({"opts": opts.json()}));
         let o = opts.to_options(ROOT, &self.fs);
         let r = self.wd.call("open", || {
@@ -608,6 +610,9 @@ pub fn current_replay() -> Option<Replay> {
 pub struct HistOutcome {
     pub result: RunResult,
     pub replay: Replay,
+    pub fs: SimFs,
+    /// (journal length when the open started, options) for every open of the run
+    pub opens: Vec<(usize, OptSet)>,
 }
 
 /// Execute a history. If `fixed_ops` is given it is replayed, otherwise operations are generated
@@ -631,6 +636,7 @@ pub fn run_hist(
         json!({"run": run_no, "seed": cfg.seed, "nk": u.n(), "driver": "hist"}),
     );
     let mut sess = Session {
+        opens: vec![],
         fs: fs.clone(),
         sink: Arc::clone(sink),
         u: Arc::clone(u),
@@ -765,5 +771,7 @@ pub fn run_hist(
             keys: u.keys.clone(),
             ops: ops_done,
         },
+        fs,
+        opens: sess.opens.clone(),
     }
 }
